@@ -29,6 +29,7 @@ func runC13(c *Check, tier string) {
 	// a forced execution is an execution: its success is decided like any other
 	// `grog taint` marks every selected target: a "seen" set must be keyed by the whole label
 	ruleSkipSetKeyComplete(c, "R13i", "cmd/cmds", "caching")
+	ruleTaintClearDeletes(c, "R13j")
 	useFamily(c, "R13g", famExec, 10)
 	shareRule(c, "R13h", "the output hash describes the outputs in their final state: the bin output is made executable before the registry call that hashes and stores the outputs (same obligation as R06i), so a re-execution that reproduces the same outputs reproduces the same hash", 1, "R06i", func(sub *Check) { ruleR06i(sub) }, nil)
 }
